@@ -15,3 +15,11 @@ CHECKS['C02'] = dict(
          'value can reach the expression).',
     note=STUBS + '; run-time values outside the tracked universe are not judged; implicit None returns are not judged',
     technique='small-scope exhaustive enumeration of generated programs, differential oracle = CPython execution')
+CHECKS['C05'] = dict(
+    text='Bounded-exhaustive exploration over PF programs (single- and multi-module, incl. '
+         'cross-module definitions): every identifier occurrence bound by the generated sources; '
+         'get_references partition law; one rename per reference class with token-level diff '
+         '== reference set, execution of the renamed project (announced file renames applied) '
+         'against the original run, and rename-back restoring every byte.',
+    note=STUBS + '; identifiers of >= 3 characters only (jedi documents that shorter names are not searched in other modules)',
+    technique='small-scope exhaustive enumeration of programs x occurrences, differential oracle = CPython execution + token diff')
